@@ -9,7 +9,7 @@
 //   kind 1: input [code]  observed [http status]
 // Direct oracle (independent of the Coq model): the property's own sentence — explicit status keeps
 // its code and RetryInfo, other permanent => Internal, other => Unavailable; never nil for an error
-// (known exception: a foreign error type reporting code OK).
+// (a foreign error type reporting code OK counts as an error without a status, /repo b16584117).
 package errors
 
 import (
@@ -126,15 +126,15 @@ func TestVerifC15Errors(t *testing.T) {
 			}
 		case 4:
 			switch {
-			case code == 0 && got == nil:
-				out.Oracle("error-becomes-success", term, "custom error type with GRPCStatus().Code()==OK: GetStatusFromError returns nil")
-			case code == -1:
+			case got == nil:
+				out.Oracle("success-iff-accepted", term, "GetStatusFromError returns nil for an error (a foreign error type whose GRPCStatus() says OK is still an error)")
+			case code == -1 || code == 0:
 				want := int(codes.Unavailable)
 				if w == 1 {
 					want = int(codes.Internal)
 				}
 				if gcode != want {
-					out.Oracle("status-mapping", term, fmt.Sprintf("error with nil GRPCStatus reported with code %d, want %d", gcode, want))
+					out.Oracle("status-mapping", term, fmt.Sprintf("error without a usable gRPC status (nil or OK) reported with code %d, want %d", gcode, want))
 				}
 			default:
 				if gcode != code || gri != (riKind == 1) || (gri && gd != int64(d)) {
